@@ -915,6 +915,9 @@ func (x *Exec) step(sc *Scenario, in Input) {
 		if in.O.Tmo != 0 {
 			opts["timeout"] = in.O.Tmo
 		}
+		if in.O.Prog {
+			opts["progress"] = true // a chunk of a progressive call invocation, more follow
+		}
 		a, kw := payload(in.Tag)
 		p.callReq[req] = string(uri)
 		p.lastCall = req
